@@ -132,6 +132,8 @@ CORPUS = [
     'start: item+\nitem: "f" arglist ";" | "g" arg ";"\narglist: "(" arg ("," arg)* ")"\narg: NAME | NUM\n' + EXTRA_TERMS + '%ignore " "\n',
     'start: (decl | expr_stmt)+\ndecl: "let" NAME "=" expr ";"\nexpr_stmt: expr ";"\n?expr: term | expr "-" term\n?term: NUM | NAME | list\nlist: "[" [expr ("," expr)*] "]"\n' + EXTRA_TERMS + '%ignore " "\n',
     'start: pair+\npair: key ":" value ";"\nkey: NAME\n?value: NUM | NAME | obj\nobj: "{" pair* "}"\n' + EXTRA_TERMS + '%ignore " "\n',
+    # everyday rule and alias names (they share a namespace with the methods of the transformers the Reconstructor is made of)
+    'start: item+\nitem: literal ";" | args ";" | "let" token "=" value ";"\nliteral: NUM | NAME "." NAME -> match\nargs: "(" literal ("," literal)* ")"\ntoken: NAME\n?value: literal | args -> rule\n' + EXTRA_TERMS + '%ignore " "\n',
 ]
 
 
